@@ -312,7 +312,11 @@ static int apply(const obj_t *o,const op_t *op,int check,const ctx_t *c,const ve
       if (ret!=OPUS_UNIMPLEMENTED) failx(c,"unknown-wrong-code","unknown","request number %d returned %d instead of OPUS_UNIMPLEMENTED",op->x,ret);
    } else if (op->type==OP_RESET){
       if (ret!=OPUS_OK) failx(c,"legal-rejected","RESET_STATE","returned %d",ret);
-      else mc_set_add(S_obs,mc_mix(o->kind,0x7e5e7));
+      else { int s2; mc_set_add(S_obs,mc_mix(o->kind,0x7e5e7));
+         /* OPUS_RESET_STATE carries no value: a setting that an earlier request applied must still be reported by its getter.
+            Not judged: BITRATE / BANDWIDTH, whose getters are documented to resolve AUTO from / report the last coded frame. */
+         for(s2=0;s2<NSETS;s2++){ int g=SETS[s2].g; if(s2==S_BITRATE||g==G_BANDWIDTH||!(SETS[s2].types&type_of_kind(o->kind))) continue;
+            if (G->v[2*g]==OPUS_OK && G2->v[2*g]==OPUS_OK && G->v[2*g+1]!=G2->v[2*g+1]) failx(c,"reset-changed-setting",SETS[s2].n,"GET_%s read %d before OPUS_RESET_STATE and %d after",SETS[s2].n,G->v[2*g+1],G2->v[2*g+1]); } }
    }
    return ret;
 }
